@@ -482,7 +482,7 @@ func c01Plan(tier string, seed int64) []core.Batch {
 	hist, ops := 14, 40
 	shardSets := []int{16}
 	if tier == "thorough" {
-		hist, ops = 120, 50
+		hist, ops = 250, 50
 		shardSets = []int{1, 2, 3, 16, 1024}
 	}
 	for _, be := range []string{"memory", "file"} {
@@ -514,7 +514,7 @@ func init() {
 		Parallel: 6,
 		Floors: map[string]map[string]int64{
 			"quick":    {"reads_overlapping_writer_memory": 200, "reads_overlapping_writer_file": 200},
-			"thorough": {"reads_overlapping_writer_memory": 2000, "reads_overlapping_writer_file": 2000},
+			"thorough": {"reads_overlapping_writer_memory": 20000, "reads_overlapping_writer_file": 20000},
 		},
 	})
 }
